@@ -100,6 +100,21 @@ def gaps_of(text):
     return nb, gaps[1:]       # gap before each non-blank line except the first
 
 
+def later_items(nb):
+    """per non-blank line: it starts a list item that is not the first item of its list (same marker column, list still open)"""
+    open_cols, out = set(), []
+    for l in nb:
+        body = strip_containers(l)
+        col = len(l) - len(body)
+        if ITEM_RE.match(body):
+            out.append(col in open_cols)
+            open_cols = {c for c in open_cols if c <= col} | {col}
+        else:
+            out.append(False)
+            open_cols = {c for c in open_cols if c < col}      # text at or left of a marker column ends that list
+    return out
+
+
 def _spacing(job):
     name, x, base, mode = job
     try:
@@ -112,8 +127,9 @@ def _spacing(job):
     same = nb0 == nb1
     gaps = []
     if same:
+        later = later_items(nb0)
         for j, (a, b) in enumerate(zip(g0, g1)):
-            gaps.append(dict(g0=a, g1=b, item=bool(ITEM_RE.match(strip_containers(nb0[j + 1])))))
+            gaps.append(dict(g0=a, g1=b, item=bool(ITEM_RE.match(strip_containers(nb0[j + 1]))), later=later[j + 1]))
     l0, l1 = lists_of(project.parse_marko(o0)), lists_of(project.parse_marko(o1))
     aligned = len(l0) == len(l1) and all(a["n"] == b["n"] for a, b in zip(l0, l1))
     try:
@@ -193,10 +209,10 @@ def run(tier: str) -> int:
             m = metas[id_]
             # D31: a heading directly inside a list item is always followed by a blank line, so such a list cannot read tight
             if m["kind"] == "spacing" and m["mode"] == "tight" and "D31" in chk.open_findings and heading_in_item(m["preserve_output"]) \
-                    and vec[:3] == [True, True, True]:         # only the "reads tight" clause fails
+                    and vec[:3] == [True, True, True] and vec[4]:         # only the "reads tight" clause fails
                 chk.known_finding("D31", {k: m[k] for k in ("doc", "mode", "mode_output")})
                 continue
-            names = ["SameNonBlankLines", "BlankLinesOnlyBeforeItems", "GapDirection", "Tightness"]
+            names = ["SameNonBlankLines", "BlankLinesOnlyBeforeItems", "GapDirection", "Tightness", "ItemsSeparated"]
             clause = "CleanupsOnlyUnbold" if m["kind"] == "cleanups" else f"Spacing({m['mode']}):" + "+".join(n for n, v in zip(names, vec) if not v)
             chk.violation(clause, m)
     for id_ in list(metas)[:: max(1, len(metas) // 5)][:5]:
